@@ -21,6 +21,14 @@ def _leaves(v, out):
     out.append((type(v).__name__, v))
 
 
+def _by_type(pairs):
+  """multiset of (type name, value) pairs as {type name: sorted values} (no repr: stays symbolic)"""
+  out = {}
+  for tn, v in pairs:
+    out.setdefault(tn, []).append(v)
+  return {tn: sorted(vs) for tn, vs in out.items()}
+
+
 def _check(data, opt=0, count_all=True):
   inc, exc = OPTS[opt]
   res = import_json.dumps(data, "N", {"includes": inc, "excludes": exc})
@@ -56,7 +64,7 @@ def _check(data, opt=0, count_all=True):
   if opt == 0 and count_all:
     want = []
     _leaves(data, want)
-    if sorted(map(repr, want)) != sorted(map(repr, cells)):
+    if _by_type(want) != _by_type(cells):
       return False                                   # every scalar exactly once
   return True
 
@@ -77,16 +85,60 @@ def _same_kinds(rows):
 
 def flat(rows: List[D1]) -> bool:
   """
-  pre: len(rows) <= 2 and all(len(r) <= 2 and _ok_keys(r) for r in rows)
+  pre: len(rows) <= 2 and all(len(r) <= 2 and all(k in ("a", "b") for k in r) for r in rows)
   pre: all((not isinstance(v, str)) or len(v) <= 1 for r in rows for v in r.values())
   post: _
   """
   return _check(rows)
 
 
+_KS = [[], ["a"], ["b"], ["a", "b"]]
+
+
+def _shape_rows(shape, v):
+  """rows with concrete key sets (shape) and symbolic values"""
+  r1, r2 = _KS[shape % 4], ([None] + _KS)[shape // 4]
+  rows = [{k: v[i] for i, k in enumerate(r1)}]
+  if r2 is not None:
+    rows.append({k: v[2 + i] for i, k in enumerate(r2)})
+  return rows
+
+
+def flat_ints(shape: int, v: List[Optional[int]]) -> bool:
+  """
+  pre: 0 <= shape < 20 and len(v) == 4
+  post: _
+  """
+  return _check(_shape_rows(shape, v))
+
+
+def flat_strs(shape: int, v: List[Optional[str]]) -> bool:
+  """
+  pre: 0 <= shape < 20 and len(v) == 4 and all(x is None or len(x) <= 1 for x in v)
+  post: _
+  """
+  return _check(_shape_rows(shape, v))
+
+
+def scalar_ints(rows: List[int], single: int) -> bool:
+  """
+  pre: len(rows) <= 3
+  post: _
+  """
+  return _check(rows) and _check(single)
+
+
+def scalar_strs(rows: List[str], single: str) -> bool:
+  """
+  pre: len(rows) <= 2 and all(len(v) <= 2 for v in rows) and len(single) <= 2
+  post: _
+  """
+  return _check(rows) and _check(single)
+
+
 def scalars(rows: List[S], single: S) -> bool:
   """
-  pre: len(rows) <= 3 and all((not isinstance(v, str)) or len(v) <= 1 for v in rows)
+  pre: len(rows) <= 2 and all((not isinstance(v, str)) or len(v) <= 1 for v in rows)
   pre: (not isinstance(single, str)) or len(single) <= 1
   post: _
   """
@@ -116,11 +168,42 @@ def arrays(rows: List[Dict[str, List[Union[int, D1]]]], opt: int) -> bool:
   return _check(rows, opt)
 
 
+_S = [1, "x", None, True, 0, ""]
+_OBJ = [{"a": 1}, {"a": "x", "b": None}, {"": 1, "a_b": 2}, {}, {"b": True}, {"a": {"b": 1}}, {"a": {"b": 1}, "a_b": 2}, {"a": {"": 1}, "": 3},
+        {"a": {"a": None}}, {"b": {"a": "x"}, "a": {}}, {"a": {}}, {"a": {"b": 1}, "b": {"b": 2}}, {"a": {"a_b": 1}, "a_b": {"a": 2}}]
+_ARR = [{"a": [1, 2]}, {"a": [{"b": 1}, 2]}, {"a": [{"a": 1}, {"b": "x"}]}, {"b": []}, {"a_b": [1]}, {"": [{"": 1}]}, {"a": [{}]}, {"a": [None, {"a": None}]}]
+
+
+def nested_case(r1, r2, opt):
+  rows = [_OBJ[r1]] + ([_OBJ[r2]] if r2 is not None else [])
+  return True if not _same_kinds(rows) else _check(rows, opt)
+
+
+def arrays_case(r1, r2, opt):
+  return _check([_ARR[r1]] + ([_ARR[r2]] if r2 is not None else []), opt)
+
+
+def mixed_case(r1, r2, opt):
+  rows = [_OBJ[r1], _ARR[r2]]
+  return True if not _same_kinds(rows) else _check(rows, opt, count_all=True)
+
+
 OBLIGATIONS = [
-  {"func": "flat", "cond_timeout": 300, "desc": "<= 2 flat objects with keys from %r" % (KEYS,)},
-  {"func": "scalars", "cond_timeout": 200, "desc": "top-level scalar items; a single scalar document"},
-  {"func": "nested_objects", "cond_timeout": 400, "desc": "objects nested in objects (sub-tables, Ref columns), with include/exclude options"},
-  {"func": "arrays", "cond_timeout": 400, "desc": "arrays of scalars/objects (sub-table rows pointing back to their parent), with options"},
+  {"func": "flat_ints", "cond_timeout": 100, "desc": "<= 2 flat objects, each key set out of {a, b} (20 shapes), unbounded int or null values (symbolic)"},
+  {"func": "flat_strs", "cond_timeout": 60, "desc": "same shapes, str (len <= 1) or null values (symbolic)"},
+  {"func": "scalar_ints", "cond_timeout": 60, "desc": "top-level list of <= 3 unbounded ints; a single int document"},
+  {"func": "scalar_strs", "cond_timeout": 60, "desc": "top-level list of <= 2 strs of len <= 2; a single str document"},
+  {"func": "flat", "cond_timeout": 60, "desc": "<= 2 flat objects with keys from %r (symbolic scalars)" % (KEYS,)},
+  {"func": "scalars", "cond_timeout": 100, "desc": "top-level scalar items; a single scalar document (symbolic)"},
+]
+_N = list(range(len(_OBJ)))
+_M = list(range(len(_ARR)))
+ENUM = [
+  {"func": "nested_case", "domains": {"r1": _N, "r2": [None] + _N, "opt": list(range(len(OPTS)))}, "max_s": 200,
+   "desc": "1-2 rows from %d nested-object shapes x %d include/exclude options" % (len(_OBJ), len(OPTS))},
+  {"func": "arrays_case", "domains": {"r1": _M, "r2": [None] + _M, "opt": list(range(len(OPTS)))}, "max_s": 200,
+   "desc": "1-2 rows from %d array shapes x options" % len(_ARR)},
+  {"func": "mixed_case", "domains": {"r1": _N, "r2": _M, "opt": list(range(len(OPTS)))}, "max_s": 200, "desc": "an object row and an array row"},
 ]
 BOUNDS = {"keys": KEYS, "rows": "<= 2", "depth": "<= 3", "options (includes, excludes)": OPTS}
 FILES = ["sandbox/grist/imports/import_json.py"]
